@@ -375,8 +375,10 @@ def plane_box(
     # get corner in global coordinates relative to box center
     corner = box_rot * corner
 
-    # compute distance to plane
+    # compute distance to plane, skip if pointing up
     ldist = wp.dot(plane_normal, corner)
+    if ldist > 0.0:
+      continue
     cdist = center_dist + ldist
 
     dist[i] = cdist
